@@ -16,9 +16,11 @@ CONSTANTS
   LeafSet <- MC_LeafSet_S
   LimVals <- MC_LimVals_S
   LitPool <- MC_LitPool
-  QuotedIdents <- MC_QuotedIdents_S
+  QuotedIdents <- MC_QuotedIdents
   StrLits <- MC_StrLits
   TrickyStrs <- MC_TrickyStrs_S
+  UniIdents <- MC_UniIdents_S
+  UniStrs <- MC_UniStrs_S
   MaxDefs = 2
   MaxGroup = 2
   MaxItems = 2
@@ -28,7 +30,7 @@ CONSTANTS
   MaxRows = 2
   MaxSet = 2
   MaxVals = 2
-  Slices = {"create_database", "create_table", "del_all", "del_leaf", "del_tree", "given", "ins_cols", "ins_row", "ins_rows", "qid", "sel_combo", "sel_from", "sel_group_alias", "sel_group_cols", "sel_group_count", "sel_item_expr", "sel_item_leaf", "sel_item_tree", "sel_items", "sel_limit", "sel_nofrom", "sel_on", "sel_order", "sel_star", "sel_where_leaf", "sel_where_tree", "show", "str_cond", "str_insert", "str_item", "str_update", "upd_list", "upd_one", "upd_where_leaf", "upd_where_tree", "use"}
+  Slices = {"create_database", "create_table", "del_all", "del_leaf", "del_tree", "given", "ins_cols", "ins_row", "ins_rows", "qid", "sel_combo", "sel_from", "sel_group_alias", "sel_group_cols", "sel_group_count", "sel_item_expr", "sel_item_leaf", "sel_item_tree", "sel_items", "sel_limit", "sel_nofrom", "sel_on", "sel_order", "sel_star", "sel_where_leaf", "sel_where_tree", "show", "str_cond", "str_insert", "str_item", "str_update", "uni", "upd_list", "upd_one", "upd_where_leaf", "upd_where_tree", "use"}
   Stmts <- MC_Cover
   Vocab <- MC_None
   Vocab2 <- MC_None
